@@ -108,6 +108,67 @@ def random_nonpd3(rng):
             return R
 
 
+CANCEL_R = [0.5, 0.25, 0.375, 0.625, 0.125, 0.6875, 0.0625]
+
+
+def cancelling3(rng):
+    """three pairwise correlations, not all zero, whose SUM is exactly 0 in binary64 (dyadic
+    numbers): (r, -r, 0) in any position, or (r1, r2, -(r1+r2)).  Returns (R, positive definite?)"""
+    while True:
+        t = rng.random()
+        if t < 0.55:
+            r = rng.choice(CANCEL_R) * rng.choice([1, -1])
+            trip = [r, -r, 0.0]
+        elif t < 0.85:
+            r1 = rng.choice(CANCEL_R) * rng.choice([1, -1])
+            r2 = rng.choice(CANCEL_R) * rng.choice([1, -1])
+            trip = [r1, r2, -(r1 + r2)]
+        else:   # cancelling AND jointly not positive definite: the fallback (warning) is required
+            r = rng.choice([0.75, 0.875, 0.9375]) * rng.choice([1, -1])
+            trip = [r, -r, 0.0]
+        rng.shuffle(trip)
+        r01, r02, r12 = trip
+        if not any(trip) or any(abs(x) >= 1 for x in trip) or r01 + r02 + r12 != 0.0:
+            continue
+        R = [[1.0, r01, r02], [r01, 1.0, r12], [r02, r12, 1.0]]
+        ev = M.min_eig(R)
+        if abs(ev) < 1e-3:
+            continue
+        return R, ev > 0
+
+
+PRE_KINDS = ["range", "range", "range-noread", "size", "size-reset", "mode", "custom", "conf",
+             "recalc", "method", "global-recalc", "read"]
+
+
+def gen_prelude(rng):
+    """a short history on the result BEFORE the judged read; each one ends in the plain default
+    configuration C02 speaks about (mean-and-std strategy, no range, the configured size)"""
+    if rng.random() < 0.6:
+        return []
+    out = []
+    for _ in range(rng.choice([1, 1, 2, 3])):
+        k = rng.choice(PRE_KINDS)
+        if k in ("range", "range-noread"):
+            a, b = sorted([rng.uniform(0.05, 0.95), rng.uniform(0.05, 0.95)])
+            if rng.random() < 0.5:
+                a, b = rng.uniform(0.3, 0.45), rng.uniform(0.55, 0.7)
+            out.append([k, a, b])
+        elif k in ("size", "size-reset"):
+            out.append([k, rng.choice([5, 9, 60])])
+        elif k == "mode":
+            out.append([k, rng.choice([0.5, 0.68, 0.9, 1.0])])
+        elif k == "custom":
+            out.append([k, round(rng.uniform(-5, 5), 2), round(rng.uniform(0, 2), 2)])
+        elif k == "conf":
+            out.append([k, rng.choice([0.5, 0.9, 0.95])])
+        elif k == "global-recalc":
+            out.append([k, rng.choice([6, 13, 40])])
+        else:
+            out.append([k])
+    return out
+
+
 def gen_overflow_case(rng, sizes):
     """exp(m)/1e10 (or its negative) with m around 709: part of the draws overflow to +-inf, which
     must be discarded like NaN"""
@@ -123,13 +184,14 @@ def gen_overflow_case(rng, sizes):
     return {"nodes": nodes, "root": len(nodes) - 1, "vals": [bits(mu)], "errs": [bits(sg)],
             "rho": [], "n_meas": 1, "ops": ops, "ref_value": bits(0.0), "kind": "overflow",
             "raw": {}, "per": per, "global": rng.choice([5, 11, 50]) if per else N,
-            "method": rng.choice(["global", "value"]), "npseed": rng.randrange(2 ** 32)}
+            "method": rng.choice(["global", "value"]), "npseed": rng.randrange(2 ** 32),
+            "pre": gen_prelude(rng)}
 
 
 def gen_case(rng, sizes, force_kind=None):
     if force_kind == "overflow":
         return gen_overflow_case(rng, sizes)
-    need3 = force_kind in ("near", "nonpd", "partial", "zerosigma")
+    need3 = force_kind in ("near", "nonpd", "partial", "zerosigma", "cancel")
     target = 3 if need3 else (2 if force_kind == "unit" else rng.choice([1, 2, 2, 3, 3, 3]))
     while True:
         c = exprgen.gen_case(rng, max_ops=5, max_meas=3, allow_pairs=False, allow_corr=False)
@@ -155,7 +217,7 @@ def gen_case(rng, sizes, force_kind=None):
     if k == 2:
         kinds = ["none", "pd", "pd", "unit"]
     if k == 3:
-        kinds = ["none", "pd", "pd", "near", "nonpd", "nonpd", "partial"]
+        kinds = ["none", "pd", "pd", "near", "nonpd", "nonpd", "partial", "cancel"]
     kind = force_kind if force_kind in kinds else rng.choice(kinds)
     if force_kind == "zerosigma":
         kind = "pd"
@@ -170,6 +232,10 @@ def gen_case(rng, sizes, force_kind=None):
     elif kind == "nonpd":
         R = random_nonpd3(rng)
         rho = [[used[i], used[j], bits(R[i][j])] for i in range(3) for j in range(i + 1, 3)]
+    elif kind == "cancel":    # off-diagonal entries non-zero but summing to exactly 0
+        R, _ = cancelling3(rng)
+        rho = [[used[i], used[j], bits(R[i][j])] for i in range(3) for j in range(i + 1, 3)
+               if R[i][j] != 0]
     elif kind == "unit":
         rho = [[used[0], used[1], bits(rng.choice([1.0, -1.0]))]]
     elif kind == "partial":   # only one pair of three correlated
@@ -194,11 +260,79 @@ def gen_case(rng, sizes, force_kind=None):
     c["global"] = rng.choice([5, 11, 50]) if c["per"] else N
     c["method"] = rng.choice(["global", "value"])
     c["npseed"] = rng.randrange(2 ** 32)
+    c["pre"] = gen_prelude(rng)
     return c
 
 
 # ---------------------------------------------------------------------------------------------
 # running the library with recorded draws
+
+def run_prelude(q, r, case):
+    """the history before the judged read; returns the (per-quantity, global) sample size that is
+    configured at the end.  Every variant ends with the mean-and-std strategy and no range."""
+    per, glob = case["per"], case["global"]
+    mc_on = lambda: setattr(r, "error_method", q.ErrorMethod.MONTE_CARLO)  # noqa: E731
+    for op in case.get("pre", []):
+        k = op[0]
+        if k in ("range", "range-noread"):
+            s = r.mc.samples()
+            s = s[np.isfinite(s)]
+            if len(s) >= 4 and float(np.min(s)) < float(np.max(s)):
+                lo, hi = float(np.quantile(s, op[1])), float(np.quantile(s, op[2]))
+            else:
+                lo, hi = -1.0, 1.0
+            if k == "range":
+                _ = r.value, r.error
+            r.mc.set_xrange(lo, hi)
+            if k == "range":
+                _ = r.value, r.error          # caches the moments of the windowed subset
+            r.mc.set_xrange()                 # range removed: plain default configuration again
+        elif k == "size":
+            r.mc.sample_size = op[1]
+            _ = r.value, r.error
+            r.mc.sample_size = per            # assigning a size (0 = follow the global one) redraws
+        elif k == "size-reset":
+            r.mc.sample_size = op[1]
+            _ = r.value, r.error
+            r.mc.reset_sample_size()          # keeps the stored simulation (C16 notes) ...
+            r.recalculate()                   # ... so the result is recalculated explicitly
+            per = 0
+        elif k == "mode":
+            r.mc.use_mode_with_confidence(op[1])
+            _ = r.value, r.error
+            r.mc.use_mean_and_std()
+        elif k == "custom":
+            r.mc.use_custom_value_and_error(op[1], op[2])
+            _ = r.value, r.error
+            r.mc.use_mean_and_std()
+        elif k == "conf":
+            r.mc.confidence = op[1]
+            _ = r.value, r.error
+        elif k == "recalc":
+            _ = r.value, r.error
+            r.recalculate()
+        elif k == "method":
+            _ = r.value, r.error
+            if case["method"] == "global":
+                q.set_error_method(q.ErrorMethod.DERIVATIVE)
+                _ = r.value, r.error
+                q.set_error_method(q.ErrorMethod.MONTE_CARLO)
+            else:
+                r.error_method = q.ErrorMethod.DERIVATIVE
+                _ = r.value, r.error
+                mc_on()
+        elif k == "global-recalc":
+            _ = r.value, r.error
+            glob = op[1]
+            q.set_monte_carlo_sample_size(glob)
+            r.recalculate()
+        elif k == "read":
+            _ = r.value, r.error
+            _ = r.mc.samples()
+        else:
+            raise KeyError(k)
+    return per, glob
+
 
 def observe(q, case):
     M.reset(q, case["global"])
@@ -225,6 +359,9 @@ def observe(q, case):
                 r.error_method = q.ErrorMethod.MONTE_CARLO
             if case["per"]:
                 r.mc.sample_size = case["per"]
+            per_now, glob_now = run_prelude(q, r, case)
+            out["per_final"], out["global_final"] = per_now, glob_now
+            out["config"] = [r.mc.strategy, tuple(r.mc.xrange)]
             s = r.mc.samples()
             out["ncalls"] = len(cap.calls)
             out["value"], out["error"] = float(r.value), float(r.error)
@@ -275,14 +412,16 @@ def model_line(case, o):
     return {"cmd": "mc", "nodes": exprgen.model_nodes(case["nodes"]), "root": case["root"],
             "vals": M.bitlist(o["vals_eff"]), "errs": M.bitlist(o["errs_eff"]), "order": o["order"],
             "R": [M.bitlist(row) for row in o["R"]], "Z": Z,
-            "per": case["per"], "global": case["global"]}
+            "per": o.get("per_final", case["per"]), "global": o.get("global_final", case["global"])}
 
 
 def describe(case):
     raw = {"m" + k: [unbits(b) for b in v] for k, v in case.get("raw", {}).items()}
-    return "{} [corr={}, size per={} global={}, method={}, numpy seed={}{}]".format(
-        pretty(case), case.get("kind"), case["per"], case["global"], case["method"], case["npseed"],
-        ", repeated measurements (raw data) {}".format(raw) if raw else "")
+    return "{} [corr={}, size per={} global={}, method={}, numpy seed={}{}{}]".format(
+        pretty(case), case.get("kind"), case["per"],
+        case["global"], case["method"], case["npseed"],
+        ", repeated measurements (raw data) {}".format(raw) if raw else "",
+        ", history before the judged read: {}".format(case["pre"]) if case.get("pre") else "")
 
 
 def judge(case, o, m, failures, dist):
@@ -322,6 +461,12 @@ def judge(case, o, m, failures, dist):
                              "N(0,1) array of the configured sample size per source",
                              impl=[[list(map(repr, a)), len(arr)] for a, arr in batch],
                              expected="{} arrays of {}".format(k, want), clause="sample size"))
+        return True, False
+    if o.get("config") and o["config"] != ["monte-carlo-mean-and-std", ()]:
+        failures.append(dict(base, signature="c02:config", what="after the history the quantity is "
+                             "not in the default configuration (mean-and-std strategy, no range)",
+                             impl=o["config"], expected=["monte-carlo-mean-and-std", ()],
+                             clause="default strategy"))
         return True, False
     if o["size_reported"] != want:
         failures.append(dict(base, signature="c02:sample-size-reported", what="mc.sample_size is not "
@@ -402,6 +547,9 @@ def run(ctx, n_cases, sizes, ref=False, cases=None, force_kind=None):
         dist["size:{}".format(c["per"] or c["global"])] += 1
         dist["size-per-quantity" if c["per"] else "size-global"] += 1
         dist["repeated-measurement-sources:{}".format(len(c.get("raw", {})))] += 1
+        for op in c.get("pre", []):
+            dist["history-before-read:" + op[0]] += 1
+        dist["history-before-read:length-{}".format(len(c.get("pre", [])))] += 1
         for op in set(c["ops"]):
             dist["op:" + op] += 1
         if "exception" not in o and (ill_conditioned(o) or o.get("redrawn")):
@@ -480,7 +628,8 @@ def correspond(ctx):
     res = run(ctx, ctx.n(400, 7000), sizes)
     # targeted: the fallback and the structures the quantifier names
     for kind, n in (("nonpd", ctx.n(30, 400)), ("unit", ctx.n(12, 150)), ("near", ctx.n(20, 300)),
-                    ("zerosigma", ctx.n(20, 300)), ("overflow", ctx.n(12, 200))):
+                    ("zerosigma", ctx.n(20, 300)), ("overflow", ctx.n(12, 200)),
+                    ("cancel", ctx.n(30, 400)), ("partial", ctx.n(15, 200))):
         r2 = run(ctx, n, sizes, force_kind=kind)
         res["evaluations"] += r2["evaluations"]
         res["nontrivial"] |= r2["nontrivial"]
@@ -568,6 +717,14 @@ def reference_check(case, o):
     Z = np.array([arr for _, arr in last_batch(o)], dtype=float)
     if Z.shape[0] != k:
         return dict(base, signature="c02:sample-size", what="wrong number of draws")
+    want = o.get("per_final", case["per"]) or o.get("global_final", case["global"])
+    if k and Z.shape[1] != want:
+        return dict(base, signature="c02:sample-size", what="the stored simulation has {} draws per "
+                    "source, the configured sample size is {}".format(Z.shape[1], want),
+                    impl=int(Z.shape[1]), expected=want)
+    if o.get("config") and o["config"] != ["monte-carlo-mean-and-std", ()]:
+        return dict(base, signature="c02:config", what="not in the default configuration after the "
+                    "history", impl=o["config"])
     R = np.array(expected_R(case, order), dtype=float)
     np.fill_diagonal(R, 1.0)
     pd = True
@@ -622,8 +779,8 @@ def search(ctx, broken):
     sizes = [7, 100]
     n = ctx.n(300, 3000)
     tried = 0
-    for kind in (None, "nonpd", "pd", "unit"):
-        for _ in range(n // 4):
+    for kind in (None, "nonpd", "pd", "unit", "cancel", "partial"):
+        for _ in range(n // 6):
             c = gen_case(ctx.rng, sizes, force_kind=kind)
             o = observe(q, c)
             tried += 1
